@@ -82,6 +82,8 @@ prop("C06", engine="eval", prefixes=["C06."], level="model_checking",
                         # chains through several nested uncached cells
                         ("value", dict(gen=dict(p_uncached=0.55, p_catch=0.0, p_chain=0.9))),
                         ("value", dict(gen=dict(p_uncached=0.4, p_catch=0.0, p_chain=0.9), recalc=True))],
+     mc_controls=[dict(cfg="MC_MxEval_stale71.cfg", ok_cfg="MC_MxEval_stale71_ok.cfg", instance="stale71",
+                       expect="Action property InputsKept is violated")],
      quick=dict(traces=192, nops=30), thorough=dict(traces=4800, nops=45))
 prop("C08", engine="eval", prefixes=["C08."], level="model_checking",
      mc=("MxEval", "MC_MxEval_quick.cfg", "MC_MxEval_thorough.cfg"),
@@ -359,6 +361,28 @@ def run_mc(cfg, tier, seed):
             r["ok"] = bool(r.get("ok")) and bool(r2.get("ok"))
             r["states"] = (r.get("states") or 0) + (r2.get("states") or 0)
             r["transitions"] = (r.get("transitions") or 0) + (r2.get("transitions") or 0)
+        # design-level controls: a configuration that models a mechanism as it was BEFORE a
+        # repair must violate the named property on its control instance, and the repaired
+        # mechanism must satisfy it on the same instance
+        ctl = []
+        for c in cfg.get("mc_controls", []):
+            fd3, ipath3 = tempfile.mkstemp(prefix="mxv_inst_", suffix=".json")
+            os.close(fd3)
+            try:
+                with open(ipath3, "w") as f:
+                    json.dump(instances.CONTROL_INSTANCES[c["instance"]](), f)
+                bad = tlc.run_tlc(module, cfg=c["cfg"], env={"MC_INSTANCE": ipath3}, workers=2, timeout=900)
+                good = tlc.run_tlc(module, cfg=c["ok_cfg"], env={"MC_INSTANCE": ipath3}, workers=2, timeout=900)
+            finally:
+                os.unlink(ipath3)
+            fired = c["expect"] in bad["out"]
+            ctl.append({"cfg": c["cfg"], "expects": c["expect"], "fired": fired,
+                        "repaired_cfg": c["ok_cfg"], "repaired_ok": bool(good.get("ok")),
+                        "states": bad.get("states")})
+            if not fired or not good.get("ok"):
+                r["ok"] = False
+        if ctl:
+            r["controls"] = ctl
         # spec -> code: every history of MaxOps operations (BFS, exhaustive)
         mbtcfg = "MBT_%s.cfg" % module
         rb = tlc.run_tlc(module, cfg=mbtcfg, env=env, workers=NCPU, timeout=3000 if tier == "quick" else 7200)
@@ -504,7 +528,7 @@ def run_eval(pid, tier, seed):
         "exhaustive": False,
     }
     if mc is not None:
-        cov["design_model_check"] = {k: mc.get(k) for k in ("states", "transitions", "depth", "wall_s", "ok", "mbt", "deep") if k != "deep" or mc.get("deep")}
+        cov["design_model_check"] = {k: mc.get(k) for k in ("states", "transitions", "depth", "wall_s", "ok", "mbt", "deep", "controls") if k not in ("deep", "controls") or mc.get(k)}
         if mc.get("states"):
             cov["states"] += mc["states"]
             cov["transitions"] += mc.get("transitions") or 0
